@@ -161,6 +161,9 @@ def triage_loop_failure(pid, r):
     return 'violation'      # arbiter itself undecided and nothing speaks for the code: report the failed obligation as the brief prescribes
 
 
+PROOF_STEP = '[proof step]'
+
+
 def handle_failure(pid, r, jobs):
     """re-run with --trace, try to obtain a failing input and replay it on the real code"""
     extra = {}
@@ -269,7 +272,24 @@ def main():
                     unlisted.append(o)
             if unlisted:
                 r.failed = unlisted
-                if g.loops and not g.bounded and triage_loop_failure(pid, r) == 'undecided':
+                if all(PROOF_STEP in o.get('desc', '') for o in unlisted):
+                    # only obligations that pin HOW the code does it (the route the proof takes), not WHAT the property demands, failed:
+                    # the proof is not re-established; a violation only if the native oracle exhibits a failing input on the real code
+                    nat = None
+                    if g.replay:
+                        try:
+                            nat = nreplay.run(g.replay, g, {})
+                        except Exception as e:
+                            nat = {'confirmed': False, 'detail': 'native replay error: %r' % (e,)}
+                    if nat and nat.get('confirmed'):
+                        r.native_confirmed = nat
+                        violations.append(r)
+                    else:
+                        r.status = 'UNDECIDED'
+                        r.reason = 'proof not re-established: only proof-step obligations failed (%s) and the native oracle%s' % (
+                            ', '.join(o['name'] for o in unlisted[:3]), ' found no failing input' if g.replay else ' does not exist for this group')
+                        undecided.append(r)
+                elif g.loops and not g.bounded and triage_loop_failure(pid, r) == 'undecided':
                     r.status = 'UNDECIDED'
                     undecided.append(r)
                 else:
@@ -329,8 +349,11 @@ def main():
         'assumptions': P.get('assumptions', []) + assumption_scan(groups),
         'wall_s': round(wall, 1), 'violations': len(violations),
     }
-    os.makedirs(os.path.join(VERIF, 'evidence'), exist_ok=True)
-    with open(os.path.join(VERIF, 'evidence', pid + '.json'), 'w') as f:
+    # evidence/ holds runs against /repo itself only; a run against a scratch worktree (VERIF_REPO, mutation / false-alarm testing) or a
+    # partial run (--only) writes under build/ instead
+    evdir = os.path.join(VERIF, 'evidence') if (os.path.realpath(core.REPO) == '/repo' and not a.only) else os.path.join(core.BUILD, 'evidence_scratch')
+    os.makedirs(evdir, exist_ok=True)
+    with open(os.path.join(evdir, pid + '.json'), 'w') as f:
         json.dump(ev, f, indent=1)
     print('== %s: %d/%d obligations discharged (+%d/%d bounded), %d groups, %.0fs' % (pid, n_ok, n_ob, nb_ok, nb_ob, len(groups), wall))
     for ln in vio_lines:
